@@ -217,7 +217,7 @@ def gen(max_rows=12):
     )
 
 
-BUDGET_S = {"quick": 70, "thorough": 1500}
+BUDGET_S = {"quick": 110, "thorough": 1500}
 
 
 def campaigns(tier, shard=0, nshards=1):
